@@ -129,11 +129,11 @@ macro_rules! composite_history {
           }
         }
         Hop::AppendNestedEmpty => {
-          if unsubscribed.is_none() {
-            let inner = <$multi>::default();
-            handles.last_mut().unwrap().append($boxed::new(inner.clone()));
-            nested.push(inner);
-          }
+          // also after the unsubscribe: the (vacuously closed) empty composite is itself a late
+          // addition then, and whatever is appended to it through the kept handle must not be left running
+          let inner = <$multi>::default();
+          handles.last_mut().unwrap().append($boxed::new(inner.clone()));
+          nested.push(inner);
         }
         Hop::AppendToNested => {
           if let Some(inner) = nested.last_mut() {
